@@ -5,6 +5,7 @@ import (
 	"net/netip"
 	"os"
 	"strconv"
+	"syscall"
 	"time"
 
 	"golang.org/x/net/bpf"
@@ -125,6 +126,8 @@ type Endpoint struct {
 	flow       *Flow
 	sackSeqs   []uint32 // sequence numbers of probes the SACK target has received, in order
 	localPort  uint16   // source port of the first TCP/UDP probe (kernel-chosen)
+	// PortNotReserved: at the first probe another socket could bind the run's local port
+	PortNotReserved bool
 	localProto uint8
 	lastRecvd  uint32
 	Conn       *acceptedConn
@@ -479,6 +482,15 @@ func (ep *Endpoint) performWrite(w *World, o *op, now time.Duration) {
 			}
 		}
 		ep.localProto = pr.IP.Proto
+		// The run sends from a port the kernel chose for it. While the run is alive nobody else must be
+		// able to obtain that port (it is what tells concurrent runs to one target apart): a plain
+		// bind to it has to be refused. SACK probes travel on an established connection of their own.
+		if pr.IP.Proto == codec.ProtoUDP || pr.L4.Flags&codec.FlagSYN != 0 {
+			if portObtainable(pr.IP.Proto, pr.IP.Src, pr.L4.SrcPort) {
+				ep.PortNotReserved = true
+				w.stat("probe.local-port-not-reserved")
+			}
+		}
 	}
 	if o.fault != nil && (o.fault.Class == "fatal" || o.fault.Class == "slowfatal") {
 		pr.Failed = true
@@ -553,4 +565,30 @@ func (w *World) inject(b []byte, at time.Duration, origin PktOrigin) int {
 	w.Pkts = append(w.Pkts, &PktRec{ID: id, Bytes: b, At: at, Origin: origin})
 	w.schedule(event{at: at, kind: "arrive", pkt: id})
 	return id
+}
+
+// portObtainable reports whether a fresh socket of the given protocol can be bound to addr:port
+// (no SO_REUSEADDR / SO_REUSEPORT): true means the port is not held by anybody.
+func portObtainable(proto uint8, addr netip.Addr, port uint16) bool {
+	typ := syscall.SOCK_STREAM
+	if proto == codec.ProtoUDP {
+		typ = syscall.SOCK_DGRAM
+	}
+	addr = addr.Unmap()
+	fam := syscall.AF_INET
+	if addr.Is6() {
+		fam = syscall.AF_INET6
+	}
+	fd, err := syscall.Socket(fam, typ|syscall.SOCK_CLOEXEC, 0)
+	if err != nil {
+		return false
+	}
+	defer syscall.Close(fd)
+	var sa syscall.Sockaddr
+	if addr.Is6() {
+		sa = &syscall.SockaddrInet6{Port: int(port), Addr: addr.As16()}
+	} else {
+		sa = &syscall.SockaddrInet4{Port: int(port), Addr: addr.As4()}
+	}
+	return syscall.Bind(fd, sa) == nil
 }
